@@ -32,6 +32,11 @@ CHECKS = {
   "Seeded search over (mechanism, cache kind, configured ttl, credential / response / certificate / token lifetime, leeway, http_cache, fault plan) configurations and request histories over simulated time with instants biased to the validity boundaries and clock jumps; the real service (config loader to decision handler chain, real ttlcache or a Redis-semantics stub) runs in a bubble and every request accepted without contacting the remote party is checked against every validity bound the property names. Evidence over sampled histories, not a proof.",
   "Trusts: the simulated parties stamp the lifetimes the oracle uses; synctest's fake clock; Redis is a semantics stub (SET PX rejects ttl<=0); content-altering faults are excluded here (C19); unjudged areas are listed in the evidence assumptions.",
   "DESIGN.md section 3 C10"),
+"C11": ("time-sim",
+  "deterministic fake-clock simulation of two worlds from one choice list (real in-memory cache vs no cache) with digest-echoing stateless parties; differential oracle per request plus repetition-based cache-effectiveness check; shrinking and replay",
+  "Seeded search over mechanism configurations (endpoint headers, values, payload templates, rule-level overrides on a second rule sharing the prototype) and request histories whose members differ in at most one component; both worlds run the real decision service in a bubble; any per-request difference between the worlds is a soundness violation, any remote call during 24 repetitions of an allowed request inside the ttl is an effectiveness violation. Evidence over sampled configurations and histories, not a proof.",
+  "Trusts: the parties are deterministic functions of URL, body and X-*/Authorization/Cookie headers; jti/iat/nbf/exp normalisation; map iteration order cannot be seeded, so effectiveness is decided by 24 repetitions; Vary/HTTP-level cache key not judged.",
+  "DESIGN.md section 3 C11"),
 }
 
 PENDING = [p for p in ["C01","C04","C07","C10","C11","C16","C17","C18","C19"] if p not in CHECKS]
